@@ -271,8 +271,8 @@ theorem bounded_takeover (L t : Nat) (fs : List Srv) (hne : fs ≠ []) (hnd : (f
     (by
       intro f' hf'
       obtain ⟨f, hf, ⟨k, hw, hk⟩, _⟩ := All2.exists_left ha f' hf'
-      exact ⟨k, hw, by omega, by unfold deadLeaderMinRound; omega⟩)
-  refine ⟨n + 1, out, r, by omega, by unfold deadLeaderMinRound at hn; omega, ?_, hwon⟩
+      exact ⟨k, hw, by omega, by unfold deadLeaderMinRound Drummer.Gen.deadLeaderMinRound; omega⟩)
+  refine ⟨n + 1, out, r, by omega, by unfold deadLeaderMinRound Drummer.Gen.deadLeaderMinRound at hn; omega, ?_, hwon⟩
   simp [rounds, hr, hrs]
 
 #print axioms bounded_takeover
